@@ -239,15 +239,16 @@ func propC04(t *rapid.T) {
 		}
 	}
 	switch {
+	case live && scenario == "drop-partition" && earlyAddPartition && known("F-C04-partition-barrier-undersized"):
+		// known finding: AddPartition sizes the barrier by the handlers that hold the collection at that moment; called
+		// before every shard's stream is registered it may undercount. The timing checks are not applied to this class
+		// (with or without a stop: an undersized barrier fires early in both).
+		excludedEarly = 1
 	case live && stopped:
 		// a stop never produces a drop; a drop request is only legitimate if every shard had delivered the drop before the stop
 		if len(dropEvents) == 1 && (!allFed || lastFed > stopSeq) {
 			t.Fatalf("drop request issued although the collection was stopped before every shard delivered the drop message\n%s", w.dump(out))
 		}
-	case live && scenario == "drop-partition" && earlyAddPartition && known("F-C04-partition-barrier-undersized"):
-		// known finding: AddPartition sizes the barrier by the handlers that hold the collection at that moment; called
-		// before every shard's stream is registered it may undercount. The timing checks are not applied to this class.
-		excludedEarly = 1
 	case live:
 		if allFed && len(dropEvents) != 1 {
 			t.Fatalf("every shard delivered the %s message but %d drop requests were issued\n%s", dropKind, len(dropEvents), w.dump(out))
@@ -281,3 +282,87 @@ func propC04(t *rapid.T) {
 }
 
 func TestC04(t *testing.T) { rapid.Check(t, propC04) }
+
+// TestC04_PendingEvent: "Stopping or pausing a task never produces a drop request" when the drop request is already waiting to
+// be handed over. The consumer of the API events is held (the server handles one event at a time, each may take seconds), ten
+// create-partition events fill the event channel, then every shard delivers the drop message: the drop request cannot be handed
+// over yet. The collection is stopped, the consumer is released: no drop request may come out. (After a resume the streams are
+// read again from the checkpoint and the drop is requested then.)
+func TestC04_PendingEvent(t *testing.T) {
+	rapid.Check(t, func(t *rapid.T) {
+		sc := stats.New("C04")
+		gate := make(chan struct{})
+		w := newWorld(worldOpts{ttIntervalMs: 10000000, bufSize: 4, eventGate: gate})
+		defer w.close()
+		kind := rapid.SampledFrom([]string{"dropCollection", "dropPartition"}).Draw(t, "kind")
+		ns := rapid.IntRange(1, 3).Draw(t, "shards")
+		idx := drawSubset(t, 3, ns, "placement")
+		parts := []*partDef{{name: "_default"}, {name: "p1"}}
+		c := w.addCollection(0, "default", idx, idx, parts, false)
+		if err := w.start(c); err != nil {
+			t.Fatalf("VERIF-TROUBLE start: %v", err)
+		}
+		for _, st := range c.streams {
+			st.posKd = "pchannel"
+			if !w.waitRegistered(st, 20*time.Second) {
+				t.Fatalf("VERIF-TROUBLE stream %s not registered", st.srcV)
+			}
+		}
+		if b, ok := w.quiesce(20 * time.Second); !ok {
+			t.Fatalf("VERIF-TROUBLE quiesce: %s", b)
+		}
+		if err := w.mgr.AddPartition(w.taskCtx(), (&modelDB{c.db}).info(), c.info, partInfo(c, parts[1])); err != nil {
+			t.Fatalf("VERIF-TROUBLE AddPartition: %v", err)
+		}
+		// ten partitions the downstream does not have yet: one create-partition event each, nobody takes them
+		for i := 0; i < 10; i++ {
+			f := &partDef{name: fmt.Sprintf("filler%d", i), sid: c.id*100 + 60 + int64(i), tid: c.tid*100 + 60 + int64(i)}
+			if err := w.mgr.AddPartition(w.taskCtx(), (&modelDB{c.db}).info(), c.info, partInfo(c, f)); err != nil {
+				t.Fatalf("VERIF-TROUBLE AddPartition(filler): %v", err)
+			}
+		}
+		cur := ts(1700000009000, 0)
+		tag := int64(0)
+		for _, st := range c.streams {
+			tag++
+			p := &packDef{stream: st, idx: 0, id: []byte(fmt.Sprintf("c0s%dp0", st.shard)), begin: cur, end: cur + 1<<18}
+			p.msgs = []*msgDef{{kind: kind, ts: cur + 1, tag: tag, part: parts[1], pack: p}}
+			st.script = []*packDef{p}
+			if !w.feedNext(st) {
+				t.Fatalf("VERIF-TROUBLE feed")
+			}
+		}
+		if b, ok := w.quiesce(30 * time.Second); !ok {
+			t.Fatalf("VERIF-TROUBLE quiesce with the drop request pending: %s", b)
+		}
+		if err := w.mgr.StopReadCollection(w.taskCtx(), c.info); err != nil {
+			t.Fatalf("VERIF-TROUBLE StopReadCollection: %v", err)
+		}
+		if b, ok := w.quiesce(30 * time.Second); !ok {
+			t.Fatalf("VERIF-TROUBLE quiesce after the stop: %s", b)
+		}
+		close(gate)
+		if b, ok := w.quiesce(30 * time.Second); !ok {
+			t.Fatalf("VERIF-TROUBLE quiesce after releasing the consumer: %s", b)
+		}
+		_, events := w.snapshot()
+		creates := 0
+		for _, ev := range events {
+			switch ev.EventType {
+			case api.ReplicateCreatePartition:
+				creates++
+			case api.ReplicateDropCollection, api.ReplicateDropPartition:
+				t.Fatalf("the collection was stopped while its %s request could not be handed over yet (event channel full); the request came out after the stop: a stop produced a drop request (%d shards)", kind, ns)
+			}
+		}
+		if creates != 10 {
+			t.Fatalf("VERIF-TROUBLE: %d create-partition events, expected the 10 fillers", creates)
+		}
+		sc.Class("drop-request-pending-at-stop:" + kind)
+		sc.Class(fmt.Sprintf("shards:%d", ns))
+		sc.NonTrivial(true)
+		sc.Fingerprint(fmt.Sprint("pending", kind, idx))
+		sc.Sample(map[string]any{"scenario": "stop while the drop request waits for room in the event channel", "kind": kind, "shards": ns})
+		sc.Done()
+	})
+}
